@@ -7,7 +7,7 @@ def check(ctx):
     n1 = UA.check_dimension_vectors(ctx, rep)
     rep.floor("dimension components checked in UnitDimensions + / -", n1, 14)
     n2 = UA.check_convert(ctx, rep)
-    rep.floor("convert_to obligations (formula, dimension guard, byte escape)", n2, 3)
+    rep.floor("convert_to obligations (formula, decision table)", n2, 2)
     n3 = UA.check_unit_products(ctx, rep)
     rep.floor("Unit * / obligations", n3, 7)
     n4 = UA.check_number_ops(ctx, rep)
